@@ -123,6 +123,10 @@ func (e *Engine) verifyFunc(fn *ssa.Function, ct *Contract) (r *FnRun) {
 	if e.covers {
 		r.cover("entry", st)
 	}
+	if uf := ct.Opts["deterministic"]; uf != "" {
+		why := e.purityScan(fn)
+		r.staticObl("FRAME", "deterministic:"+uf, why == "", "result is a function of the arguments only: "+why, st)
+	}
 	r.execBlock(fr, st, fn.Blocks[0], nil, func(fr2 *Frame, st2 *State, res []Val) {
 		r.cur = st2
 		r.checkPost(fr2, st2, res)
@@ -196,7 +200,7 @@ func (e *Engine) verifyLemma(ct *Contract) (r *FnRun) {
 	r.cur = st
 	vars := map[string]Val{}
 	for i, p := range ct.Params {
-		vars[p] = r.fresh("lv_"+p, parseSort(ct.PTypes[i]))
+		vars[p] = r.fresh("lv_"+p, r.ms(parseSort(ct.PTypes[i])))
 	}
 	r.emitAxioms(st)
 	env := &specEnv{st: st, old: st, vars: vars, pkg: ct.Pkg, what: ct.Name}
